@@ -81,8 +81,41 @@ def refuse_case(draw):
     return {"kind": "refuse", "u": u, "v": v, "x": draw(G.magnitudes())}
 
 
+def _rankine_pairs():
+    A = G.atom
+    par = lambda x: ["(", x]
+    return [
+        (["/", A("", "J"), A("", "degR")], ["/", A("", "erg"), A("", "K")], ["/", A("k", "J"), A("m", "K")]),
+        (["/", A("", "degR"), A("", "s")], ["/", A("", "K"), A("", "min")], ["/", A("m", "K"), A("m", "s")]),
+        (["/", A("", "W"), par(["*", A("", "m", 2, 1), A("", "degR", 4, 1)])],
+         ["/", A("", "W"), par(["*", A("", "m", 2, 1), A("", "K", 4, 1)])],
+         ["/", A("m", "W"), par(["*", A("c", "m", 2, 1), A("", "K", 4, 1)])]),
+        (["/", ["*", A("k", "g"), A("", "m", 2, 1)], par(["*", A("", "s", 2, 1), A("", "degR")])],
+         ["/", A("", "J"), A("", "K")], ["/", A("", "erg"), A("", "K")]),
+        (["*", A("", "degR"), A("k", "m")], ["*", A("", "K"), A("", "m")], ["*", A("m", "K"), A("", "m")]),
+    ]
+
+
+@st.composite
+def rankine_case(draw):
+    """degR is a linear unit (5/9 K): inside compound expressions it converts like any other, its reciprocal converts as a
+    reciprocal, and another power of the temperature is refused"""
+    k = draw(st.sampled_from(["convert", "convert", "recip", "refuse"]))
+    x = draw(G.magnitudes())
+    if k == "convert":
+        u, v, w = draw(st.sampled_from(_rankine_pairs()))
+        if draw(st.booleans()):
+            u, v = v, u
+        return {"kind": "convert", "u": u, "v": v, "w": w, "x": x, "k": None}
+    if k == "recip":
+        x = draw(G.magnitudes().filter(lambda m: all(e != 0 for e in (m if isinstance(m, list) else [m]))))
+        return {"kind": "recip", "u": G.atom("", "degR", -1, 1), "v": G.atom(draw(st.sampled_from(["", "m", "k"])), "K"), "x": x, "k": None}
+    return {"kind": "refuse", "u": G.atom("", "degR"), "v": G.atom("", "K", draw(st.sampled_from([2, -2, 3])), 1), "x": x}
+
+
 def strategies(tier):
     return {
+        "rankine": (rankine_case(), 200, 4000),
         "convert": (convert_case(), 2500, 60000),
         "recip": (recip_case(), 600, 15000),
         "rad": (rad_case(), 150, 2000),
